@@ -162,11 +162,6 @@ Proof.
   destruct (H x (or_introl eq_refl)) as (v & ->). destruct IH as (vs & -> & L); [intros; apply H; now right|].
   exists (v :: vs). cbn. auto.
 Qed.
-Lemma bind_total : forall (xs : list ident) (vs : list value), List.length xs = List.length vs -> exists e', bind xs vs = Some e'.
-Proof.
-  induction xs as [|x xs IH]; intros [|v vs] H; cbn in H; try discriminate; cbn [bind]; [eauto|].
-  destruct (IH vs) as (e' & ->); [lia|]. eauto.
-Qed.
 Lemma lookup_label_find_def p l ps :
   lookup_label (sigs_of p) l = Some ps -> exists d, find_def p l = Some d /\ dctx d = ps.
 Proof.
